@@ -55,10 +55,12 @@ class Cx:
         self.acc = acc if acc is not None else []
         self.self_val = self_val
         self.fn_node = fn_node
+        self.module_level = False
 
     def child(self, **kw):
         c = Cx(self.mod, self.cls, self.fn, self.spec, self.pre, self.contract, self.closure, self.depth, self.acc,
                self.self_val, self.fn_node)
+        c.module_level = self.module_level
         for k, v in kw.items():
             setattr(c, k, v)
         return c
@@ -126,6 +128,7 @@ class ExecBase:
         self.warnings = []
         self._solver = None
         self.inv_tags = {}
+        self.paranoid = bool(__import__('os').environ.get('PYVC_PARANOID'))
         self._wf_done = set()
 
     # ------------------------------------------------------------ classes
@@ -210,6 +213,21 @@ class ExecBase:
                 st.pc.append(f)
         return v
 
+    def narrow(self, st, v, want: Sort):
+        "a union value used where a specific type is expected: unwrap when the path condition fixes the tag"
+        if not isinstance(v, VUnion) or isinstance(want, TUnionS):
+            return v
+        tg = PyU.tag(v.t)
+        if isinstance(want, TStrS) and not self.feasible(st, tg != 1):
+            return VStr(PyU.s(v.t))
+        if isinstance(want, TIntS) and not self.feasible(st, z3.And(tg != 2, tg != 3)):
+            return VInt(z3.If(tg == 2, PyU.i(v.t), z3.If(PyU.b(v.t), 1, 0)))
+        if isinstance(want, TBoolS) and not self.feasible(st, tg != 3):
+            return VBool(PyU.b(v.t))
+        if isinstance(want, TRefS) and not self.feasible(st, z3.And(tg != 4, tg != 0)):
+            return VRef(z3.If(tg == 4, PyU.r(v.t), 0), want.cls)
+        return v
+
     def write_field(self, st, obj: VRef, name, v: Val):
         s = self.field_sort(name, obj.cls)
         if s is None:
@@ -220,7 +238,16 @@ class ExecBase:
             if self.feasible(st, v.sort.is_none(v.t)):
                 raise Unsupported("possibly-None value stored into non-optional field %s" % name)
             v = mk_val(v.sort.the(v.t), v.sort.inner)
-        st.heap[k] = z3.Store(a, obj.t, term_of(v, s))
+        v = self.narrow(st, v, s)
+        try:
+            t = term_of(v, s)
+        except Unsupported:
+            # a value of another python type is stored into this attribute (legal python, but every reader of the attribute
+            # in this code base expects the declared type): reported as a failed obligation, execution continues with an
+            # arbitrary value
+            self.oblige(st, z3.BoolVal(False), "implicit", "well_typed_store[%s]" % name)
+            t = z3.FreshConst(s.z3(), "illtyped")
+        st.heap[k] = z3.Store(a, obj.t, t)
 
     def alloc(self, st, cqn):
         r = VRef(st.top, cqn, exact=True)
